@@ -248,3 +248,14 @@ for pid, items in (("C02", MKF), ("C03", MKF[:1] + MKF[2:]), ("C10", MKF[:1] + K
     if pid in PLAN:
         add_imports(pid, WHI + ["ModelCipher", "WholeMantis", "WholeMantisKey"])
         PLAN[pid] += [i_ for i_ in items if i_ not in PLAN[pid]]
+
+# generic CTR encryption as a whole function with the block function as a procedure call (WholeProc.v, WholeCtr.v)
+WP = "WholeProc.v"; WC = "WholeCtr.v"
+hand("check_proc_sound", """: forall (sizes : list nat) (cB : nat -> list bool -> list bool) (code : list stmt)
+    (eP : list (entry poly)) (eB : list (entry bool)),
+  Forall2 (entry_hom sizes) eP eB -> check_proc sizes code eP = true ->
+  forall m : mem bool, shaped sizes m -> fst (execB cB code (m, [])) = mixed_sem cB eB m""")
+PCT = [(WC, "pctr_final"), (WC, "cspec_hom"), (WP, "check_proc_sound")]
+for pid, items in (("C05", PCT),):
+    if pid in PLAN:
+        add_imports(pid, WHI + ["ModelCipher", "WholeProc", "WholeCtr"]); PLAN[pid] += items
